@@ -1,4 +1,5 @@
 import FitModel.Decode
+import FitModel.Items
 import FitModel.Gen.Profile
 /-
   Line-protocol driver: one case per input line, one canonical result line per case.
@@ -90,6 +91,70 @@ def runDec (entry opts rspec accu hex : String) : String :=
           else "-"
         s!"{outcomeTag out} {r'.pos} {renderGlobals out.st.glob} {dump}"
 
+/-! ### item-level streams (`wire`) -/
+
+def parseHexList (s : String) : Option (List Bytes) :=
+  if s.isEmpty then some [] else (splitOnChar s ',').mapM unhex
+
+def parseTriples (s : String) : List (Nat × Nat × Nat) :=
+  if s.isEmpty then []
+  else (splitOnChar s ',').filterMap fun t =>
+    match parseNatList t '.' with
+    | [a, b, c] => some (a, b, c)
+    | _ => none
+
+def parseItem (s : String) : Option Item :=
+  match s.toList with
+  | 'D' :: rest =>
+    match splitOnChar (String.ofList rest) ':' with
+    | [h, fs, ds] =>
+      match parseNatList h '.' with
+      | [l, a, g, dv] =>
+        let fields := (parseTriples fs).map fun (x, y, z) => FieldDef.mk x y z
+        let devs := (parseTriples ds).map fun (x, y, z) => DevDesc.mk x y z
+        some (.defn ⟨l, if a == 0 then .le else .be, g, fields, devs⟩ (dv == 1))
+      | _ => none
+    | _ => none
+  | 'R' :: rest =>
+    match splitOnChar (String.ofList rest) ':' with
+    | [h, fs, ds] =>
+      match parseNat? h, parseHexList fs, parseHexList ds with
+      | some l, some f, some d => some (.data l f d)
+      | _, _, _ => none
+    | _ => none
+  | 'C' :: rest =>
+    match splitOnChar (String.ofList rest) ':' with
+    | [h, fs, ds] =>
+      match parseNatList h '.', parseHexList fs, parseHexList ds with
+      | [l, o], some f, some d => some (.cdata l o f d)
+      | _, _, _ => none
+    | _ => none
+  | _ => none
+
+/-- decode `frame (serialize items)` with the byte-level model and, independently, run the
+    item machine on the items; `SPEC=ok` iff both yield the same File -/
+def runWire (opts accu items : String) : String :=
+  match (splitOnChar items '|').mapM parseItem with
+  | none => "bad-items"
+  | some its =>
+    let data := frameBytes 0x20 2115 (serialize its)
+    let o := parseOpts opts
+    let g := parseGlobals accu
+    let (out, r') := decode P o .full g (Reader.ofBytes data)
+    let line := s!"{outcomeTag out} {r'.pos} {renderGlobals out.st.glob} {renderFileOpt out.st.file}"
+    let hdr : Header := match out.st.file with | some f => f.hdr | none => {}
+    let spec :=
+      match runItems P hdr g its with
+      | .ok st =>
+        let o2 := finalize o (okOut st)
+        let f2 := o2.st.file.map fun f => { f with crc := match out.st.file with | some f1 => f1.crc | none => 0 }
+        if out.err.isNone ∧ !out.panic ∧ renderFileOpt f2 == renderFileOpt out.st.file
+            ∧ renderGlobals o2.st.glob == renderGlobals out.st.glob then "ok"
+        else "items-differ:" ++ renderFileOpt f2
+      | .stop o2 =>
+        if outcomeTag o2 == outcomeTag out then "ok" else "items-stop:" ++ outcomeTag o2
+    line ++ " SPEC=" ++ spec
+
 def hex4 (n : Nat) : String :=
   String.ofList [hexDigit ((n / 4096) % 16), hexDigit ((n / 256) % 16), hexDigit ((n / 16) % 16), hexDigit (n % 16)]
 
@@ -119,6 +184,7 @@ def runCrcSplit (cuts hex : String) : String :=
 
 def runLine (line : String) : String :=
   match splitOnChar line ' ' with
+  | ["wire", opts, accu, items] => runWire opts accu items
   | ["crcrow", st] => runCrcRow st
   | ["crcsplit", cuts, hex] => runCrcSplit cuts hex
   | ["crcsplit", cuts] => runCrcSplit cuts ""
